@@ -29,13 +29,25 @@ class Unit:
 class ContractUnit(Unit):
     kind = "contract"
 
-    def __init__(self, contract: Contract):
+    def __init__(self, contract: Contract, variants=None):
         self.contract = contract
         self.name = contract.target
+        self.variant_names = list(variants) if variants else None      # restrict the unit to these variants of the contract
 
     only = None      # index of the single variant to run (set by the parallel driver)
 
+    def variant_indices(self):
+        vs = list(self.contract.variants)
+        if self.variant_names is None:
+            return list(range(len(vs)))
+        return [vs.index(n) for n in self.variant_names]
+
     def run(self, index, tier, seed):
+        if self.only is None and self.variant_names is not None:
+            out = []
+            for vi in self.variant_indices():
+                out += verify_unit(index, self.contract, only=vi)
+            return out
         return verify_unit(index, self.contract, only=self.only)
 
 
